@@ -45,10 +45,23 @@ func chainShort(ds []tsDesc) any {
 	return d.short()["chain"]
 }
 
+func lenClass(n int) string {
+	switch {
+	case n == 1:
+		return "1"
+	case n&(n-1) == 0:
+		return "power-of-two"
+	case n > 2 && (n-1)&(n-2) == 0:
+		return "power-of-two-plus-one"
+	default:
+		return "non-power-of-two"
+	}
+}
+
 func hx(k gpbft.ECChainKey) string { return hex.EncodeToString(k[:]) }
 
 func runKeys(run *vkit.Run) {
-	perLen := run.N(50, 1200)
+	perLen := run.N(30, 600)
 	type job struct{ L, k int }
 	var jobs []job
 	for k := 0; k < perLen; k++ {
@@ -62,7 +75,7 @@ func runKeys(run *vkit.Run) {
 		mu.Lock()
 		defer mu.Unlock()
 		if prev, ok := seen[k]; ok && prev != content {
-			run.Violation(fmt.Sprintf("C14 keys: two different chains have the same key %s (%s)", hx(k), what), map[string]any{"case": caseID, "key": hx(k)})
+			run.Violation("C14 keys: two different chains have the same key", map[string]any{"case": caseID, "key": hx(k), "what": what})
 		}
 		seen[k] = content
 	}
@@ -88,7 +101,7 @@ func runKeys(run *vkit.Run) {
 			expected[i] = freshChain(ds[:i+1]).Key()
 		}
 		bad := func(variant string, i int, got gpbft.ECChainKey, order string) {
-			run.Violation(fmt.Sprintf("C14 keys: %s disagrees with the key of a fresh copy of the same prefix (chain length %d, prefix %d, call order %s)", variant, L, i, order),
+			run.Violation(fmt.Sprintf("C14 keys: %s disagrees with the key of a fresh copy of the same prefix (prefix length class %s, call order %s)", variant, lenClass(i+1), order),
 				map[string]any{"case": caseID, "variant": variant, "len": L, "prefix": i, "got": hx(got), "want": hx(expected[i]), "order": order, "chain": chainShort(ds)})
 		}
 		c := freshChain(ds)
@@ -125,7 +138,7 @@ func runKeys(run *vkit.Run) {
 			all, batch = c.AllPrefixes(), c.KeysForPrefixes()
 		}
 		if len(all) != L || len(batch) != L {
-			run.Violation(fmt.Sprintf("C14 keys: AllPrefixes/KeysForPrefixes returned %d/%d entries for a chain of %d", len(all), len(batch), L), map[string]any{"case": caseID})
+			run.Violation("C14 keys: AllPrefixes/KeysForPrefixes returned a wrong number of entries", map[string]any{"case": caseID, "len": L, "all": len(all), "batch": len(batch)})
 			return
 		}
 		var cmp int64
@@ -137,7 +150,7 @@ func runKeys(run *vkit.Run) {
 				bad("AllPrefixes()[i].Key()", i, k, order)
 			}
 			if all[i].Len() != i+1 || !eqChain(all[i], freshChain(ds[:i+1])) {
-				run.Violation(fmt.Sprintf("C14 keys: AllPrefixes()[%d] of a chain of %d does not hold the first %d tipsets", i, L, i+1), map[string]any{"case": caseID})
+				run.Violation("C14 keys: AllPrefixes()[i] does not hold the first i+1 tipsets", map[string]any{"case": caseID, "len": L, "prefix": i})
 			}
 			if k := prefixes[i].Key(); k != expected[i] {
 				bad("Prefix(i).Key()", i, k, order)
@@ -169,12 +182,12 @@ func runKeys(run *vkit.Run) {
 				want = freshChain(append(append([]tsDesc(nil), ds[:i+1]...), e2)).Key()
 			}
 			if k := derived.Key(); k != want {
-				run.Violation(fmt.Sprintf("C14 keys: chain derived by %s reports a key different from a fresh copy of the same content (chain length %d, prefix %d)", how, L, i),
-					map[string]any{"case": caseID, "got": hx(k), "want": hx(want), "how": how})
+				run.Violation(fmt.Sprintf("C14 keys: chain derived by %s reports a key different from a fresh copy of the same content", how),
+					map[string]any{"case": caseID, "len": L, "prefix": i, "got": hx(k), "want": hx(want), "how": how})
 			}
 			// parent and siblings untouched
 			if !eqChain(c, freshChain(ds)) {
-				run.Violation(fmt.Sprintf("C14 keys: %s on a prefix object modified the parent chain's tipsets (chain length %d, prefix %d)", how, L, i), map[string]any{"case": caseID})
+				run.Violation(fmt.Sprintf("C14 keys: %s on a prefix object modified the parent chain's tipsets", how), map[string]any{"case": caseID, "len": L, "prefix": i})
 			}
 			if k := all[i+1].Key(); k != expected[i+1] {
 				bad("sibling AllPrefixes()[i+1].Key() after "+how, i+1, k, order)
@@ -185,8 +198,8 @@ func runKeys(run *vkit.Run) {
 			// AllPrefixes of the derived chain must not disturb the originals
 			da := derived.AllPrefixes()
 			if k := da[len(da)-1].Key(); k != want {
-				run.Violation(fmt.Sprintf("C14 keys: AllPrefixes()[last].Key() of a chain derived by %s differs from a fresh copy of the same content (chain length %d, prefix %d)", how, L, i),
-					map[string]any{"case": caseID, "got": hx(k), "want": hx(want), "how": how})
+				run.Violation(fmt.Sprintf("C14 keys: AllPrefixes()[last].Key() of a chain derived by %s differs from a fresh copy of the same content", how),
+					map[string]any{"case": caseID, "len": L, "prefix": i, "got": hx(k), "want": hx(want), "how": how})
 			}
 			if k := da[i].Key(); k != expected[i] {
 				bad("derived.AllPrefixes()[i].Key()", i, k, order)
@@ -215,7 +228,7 @@ func runKeys(run *vkit.Run) {
 		run.Count("keys.sibling_checks", int64(sib))
 		run.Count("keys.order_"+order, 1)
 		run.Distinct("keys|" + order + "|" + hex.EncodeToString(content[L-1][:]))
-		if j.k == 0 && L%64 == 0 {
+		if j.k == 0 && L == 128 {
 			run.Sample(map[string]any{"sub": "keys", "chain_len": L, "order": order, "key": hx(expected[L-1])})
 		}
 	}
